@@ -1,12 +1,17 @@
 ---------------------------- MODULE Trace_Verdict ----------------------------
 (* code -> spec binding for C04 at Run() level: each line gives, for one real run, the per-case
    fate as realised (from the wrapped peer's own log), the markings, and the verdict Run()
-   returned.  Accepted iff the verdict is Success() of VerdictDecl. *)
+   returned.  Accepted iff the verdict is Success() of VerdictDecl - and the report was printed: a totals line
+   whenever cases were selected ("the printed totals account for every case"), and every unmarked case whose
+   answer did not meet the expectation named in a FAILED line ("every failing case is named in the output"),
+   also when the run ended with a peer-level error. *)
 EXTENDS VerdictDecl, Json, TLC, IOUtils
 Rec == ndJsonDeserialize(IOEnv.VERIF_TRACE)
 VARIABLE l
 TraceInit == l = 1
-Accept(r) == r.ok = RunVerdict(r.cases, r.peerFault)
+Accept(r) == /\ r.ok = RunVerdict(r.cases, r.peerFault)
+             /\ (Len(r.cases) > 0 /\ r.started) => r.totalsPrinted
+             /\ r.unnamedFailures = <<>>
 TraceNext == /\ l <= Len(Rec) /\ l' = l + 1
              /\ (Accept(Rec[l]) \/ PrintT("REJECT " \o ToString(l)))
 Consumed == (l = Len(Rec) + 1) => PrintT("CONSUMED " \o ToString(Len(Rec)))
